@@ -132,6 +132,23 @@ mod verif_response {
     verif_harness!(c04_q_head_status_5xx_9xx, 40, {
         status_table(&[(b"HTTP/1.1 500 e", 500), (b"HTTP/1.1 599 e", 599), (b"X 600 e", 600), (b"HTTP/1.1 999 e", 999), (b"HTTP/1.1 418 I'm a teapot \x80\xff", 418)], Seg::OneByte, 3);
     });
+    /// C19 (first clause): the head parser returns as soon as the blank line has arrived.  The wire
+    /// holds the head and nothing else; a transport read issued beyond it is the event "the client
+    /// waits for bytes the server has not sent" (recorded in end_hits, answered with WouldBlock).
+    fn head_returns_at_blank_line(head: &[u8], seg: Seg, cap: usize) {
+        let mut script = Script::from_slice(head, seg, Fault::WouldBlock);
+        let mut reader = BufReader::with_capacity(cap, script.handle());
+        let r = parse_response_head(&mut reader, 100);
+        assert!(r.is_ok(), "C19/C04: complete head not accepted");
+        assert!(script.end_hits == 0, "C19: the head parser asked for bytes beyond the blank line before returning");
+        kani::cover!(true, "must: reached");
+        std::mem::forget(r);
+        std::mem::forget(reader);
+    }
+    verif_harness!(c19_q_head_returns_whole, 40, { head_returns_at_blank_line(b"HTTP/1.1 200 OK\r\n\r\n", Seg::Whole, 64) });
+    verif_harness!(c19_q_head_returns_onebyte, 40, { head_returns_at_blank_line(b"HTTP/1.1 204 No Content\r\n\r\n", Seg::OneByte, 4) });
+    verif_harness!(c19_t_head_returns_max3, 40, { head_returns_at_blank_line(b"HTTP/1.0 301 M\r\n\r\n", Seg::Max(3), 2) });
+
     verif_harness!(c04_q_head_limit_zero_fields, 40, {
         // a head with exactly max_headers fields is within the limit: 0 fields, limit 0
         head_case(b"HTTP/1.1 200 OK\r\n\r\n", 1, Seg::Max(4), 8, 0, &Want::Ok { status: 200, fields: NONE });
